@@ -33,10 +33,6 @@ def add_sites(ck: Checker):
 
 
 def check(ck: Checker) -> None:
-    from . import round4 as _r4
-
-    _r4.post_copy_covers_all(ck, "C01.protect")
-    _r4.hashinfo_identity(ck, "C01.pair")
     ck.decided = [
         "C01.pair: at every store insertion (8 call sites) the path and the oid are one row: same object (.path/.oid), columns of one zip(*rows) whose rows pair an object's path with its oid (or an index entry's storage path with its recorded hash), keys/values of one dict keyed by path with value hashes[path], the digest of the very stream uploaded to that path, or a migration row (path, hash-of-path)",
         "C01.keyfaithful: _hash returns its own path with hash_file(path); _get_hashes files state hits and fresh hashes under the path they belong to; hash_file/_hash_file/file_md5 hash the path they were given",
@@ -78,6 +74,11 @@ def check(ck: Checker) -> None:
     chm = [x for x in walk_own(pr.node) if isinstance(x, ast.Call) and norm(x.func) == "os.chmod"] if pr else []
     ck.require(bool(chm) and all(len(x.args) >= 2 and norm(x.args[0]) == "path" and norm(x.args[1]) == "self.CACHE_MODE" for x in chm), "C01.protect", pr, pr.node if pr else None,
                "protect() chmods its path to CACHE_MODE", "LocalHashFileDB.protect no longer chmods the given path to CACHE_MODE")
+    from . import round4 as _r4
+
+    _r4.post_copy_covers_all(ck, "C01.protect")
+    _r4.hashinfo_identity(ck, "C01.pair")
+
 
 
 def pair_relation(ck: Checker, fn: Func, g, n, c: ast.Call) -> Tuple[bool, str]:  # noqa: C901, PLR0911, PLR0912
